@@ -99,7 +99,9 @@ def _signature(clause, e, prev):
             return None            # the panic state persists until the next reset
         return "C11 ReqFits pool=%d" % e.get("p", 0)
     if clause in ("RespFits", "RespCount"):
-        return "C11 %s n=%d" % (clause, e.get("n", 0))
+        return "C11 %s n=%d%s" % (clause, e.get("n", 0), "" if e.get("u", 32) == 32 else " uid=%d" % e["u"])
+    if clause == "ProbeAnswered":
+        return "C11 ProbeAnswered n=%d uid=%d" % (e.get("n", 0), e.get("u", 32))
     if clause == "FieldCount":
         return "C11 FieldCount pool=%d" % e.get("p", 0)
     if clause == "PlaceholderType":
@@ -207,11 +209,15 @@ def run(ctx):
     retired = sum(1 for e in events if e["ev"] == "req" and not e["fn"] and not e["kv"])
     rekeys2 = sum(1 for b in behs if sum(1 for e in b if e["ev"] == "rekey") >= 2)
     probes = sorted({e["n"] for e in events if e["ev"] == "probe"})
+    probe_uids = sorted({e["u"] for e in events if e["ev"] == "probe"})
+    capped_by_uid = sum(1 for e in events if e["ev"] == "probe" and e["ans"] and not e["bad"] and
+                        e["n"] <= 8 and len(e["cookies"]) < e["n"])
     need = dict(req=cnt["req"], rep=cnt["rep"], losereq=cnt["losereq"], loseresp=cnt["loseresp"],
                 norep=cnt["norep"], tick=cnt["tick"], rekey=cnt["rekey"], probe=cnt["probe"],
                 rotated_replies=rotated, requests_under_retired_key=retired)
     ctx.log("coverage: %s; live pool levels %s, function-level pool levels %s, behaviours with re-keying %d, "
-            "panics %d, probe sizes %s" % (need, levels_live, levels_fn, rekeys2, cnt["panic"], probes))
+            "panics %d, probe sizes %s x unique-id lengths %s (%d replies capped because of the identifier)" %
+            (need, levels_live, levels_fn, rekeys2, cnt["panic"], probes, probe_uids, capped_by_uid))
     pred = design_f.result()   # raises Inconclusive if a design-level run failed
     bg.shutdown()
 
@@ -258,7 +264,7 @@ def run(ctx):
                     s -= 1
                 found[sig] = ("recorded behaviour %d violates %s at event %s (%s): %s" %
                               (e["b"], clause, e["ev"], "function level" if e.get("fn") else "live",
-                               {k: e[k] for k in ("p", "n", "size", "ncookie", "nph", "bad", "ok", "why") if k in e}),
+                               {k: e[k] for k in ("p", "n", "u", "size", "ncookie", "nph", "bad", "ok", "why") if k in e}),
                               {"cfg": cfg, "events": evs[s:pos]})
         nviol_beh += len(badb)
         nval += len({e["b"] for e in evs[1:]}) - len(badb)
@@ -273,7 +279,8 @@ def run(ctx):
     # vacuity self-check: only a run that found nothing needs complete coverage to mean something
     missing = [k for k, v in need.items() if not v]
     if not found and (missing or levels_fn != list(range(1, 9)) or levels_live != list(range(1, 9)) or
-                      (rekeys2 == 0 and cnt["panic"] == 0) or probes[:1] != [1] or max(probes) < 12):
+                      (rekeys2 == 0 and cnt["panic"] == 0) or probes[:1] != [1] or max(probes) < 12 or
+                      not {32, 200, 320} <= set(probe_uids)):
         raise vlib.Inconclusive("driver coverage incomplete: missing %s, live levels %s, fn levels %s" %
                                 (missing, levels_live, levels_fn))
     for sig, (what, rep) in sorted(found.items()):
@@ -301,15 +308,15 @@ def run(ctx):
             elif e["ev"] == "panic":
                 kinds.add((e["p"], e["fn"], "panic"))
             elif e["ev"] == "probe":
-                kinds.add(("probe", e["n"], e["phtype"], e["prov"]["cur"], e["bad"]))
+                kinds.add(("probe", e["n"], e["u"], e["phtype"], e["prov"]["cur"], e["bad"]))
     sample = next((b for b in behs if any(e["ev"] == "loseresp" for e in b)), behs[0])
     ctx.cov.update(
         evaluations=exchanges, distinct_nontrivial=len(kinds),
         rule="exchanges of the real IPClient/NTS-KE/NTP server through the recording proxy under TLC-generated "
              "schedules (random walks with loss bias 0..5, clock jumps of 12h..3d, foreign requests with 1..12 "
-             "fields; all schedules of 3-4 exchanges) plus every pool level through NewRequestPacket/EncodePacket "
-             "and every reply size 1..12 from the live server; distinct = distinct (pool level, live/function "
-             "level, outcome, key of the cookie valid?, key id) resp. (probe size, placeholder wire type, current "
+             "fields and unique identifiers of 32..320 bytes; all schedules of 3-4 exchanges) plus every pool level through NewRequestPacket/EncodePacket "
+             "and every reply size 1..12 x unique-identifier length {32,36,64,160,200,300,320} from the live server; distinct = distinct (pool level, live/function "
+             "level, outcome, key of the cookie valid?, key id) resp. (probe size, unique-id length, placeholder wire type, current "
              "key, reply malformed?)",
         traces_validated_against_impl=nval, events_validated=len(events), behaviours=len(behs),
         behaviours_with_violations=nviol_beh, event_counts=dict(cnt), pool_levels_live=levels_live,
